@@ -20,6 +20,7 @@ import ShapeVerif.Proofs.DerivGen
 import ShapeVerif.Gen.Arith
 import ShapeVerif.Gen.Integrals
 import ShapeVerif.Proofs.ChordCutGen
+import ShapeVerif.Proofs.RectMomentGen
 
 set_option linter.unusedTactic false
 set_option linter.unreachableTactic false
@@ -132,6 +133,19 @@ theorem quadrilateral_is_two_triangles (p u q w : Pt) (a b : Nat) :
     Jordan.moment (Jordan.fromVertices [p, u, q, w]) a b
       = Jordan.moment (Jordan.fromVertices [p, u, q]) a b + Jordan.moment (Jordan.fromVertices [q, w, p]) a b :=
   chord_cut_moment [u] [w] p q a b
+
+/-- ground truth for EVERY moment: on an axis-parallel rectangle the Green boundary integral the code computes is the iterated integral
+∫ x^a dx · ∫ y^b dy, for all exponents and all rational corners (orientation included: a clockwise rectangle gives the negative) -/
+theorem rectangle_moment_all (x0 y0 x1 y1 : Rat) (a b : Nat) :
+    Jordan.moment (rect x0 y0 x1 y1) a b
+      = (x1 ^ (a + 1) - x0 ^ (a + 1)) / ((a + 1 : Nat) : Rat) * ((y1 ^ (b + 1) - y0 ^ (b + 1)) / ((b + 1 : Nat) : Rat)) :=
+  rect_moment_all x0 y0 x1 y1 a b
+
+/-- a horizontal edge contributes nothing to ∫ … dy, a vertical edge contributes x^a (q.y^(b+1) − p.y^(b+1))/(b+1) — all exponents -/
+theorem axis_parallel_edges (p q : Pt) (a b : Nat) :
+    (p.y = q.y → exactVertical [p, q] a b = 0) ∧
+    (p.x = q.x → exactVertical [p, q] a b = p.x ^ a * (q.y ^ (b + 1) - p.y ^ (b + 1)) / ((b + 1 : Nat) : Rat)) :=
+  ⟨fun h => exactVertical_horizontal_edge p q h a b, fun h => exactVertical_vertical_edge p q h a b⟩
 
 /-! ### the quadrature loop of `IntegratePlanar.vertical` as written in the source -/
 
